@@ -469,3 +469,13 @@ Definition c07_e2e (v : value) : list Z :=
   | Ok p, Ok w => p ++ [32; 13; 10] ++ w ++ [13; 10] ++ p ++ [13; 10]
   | _, _ => []
   end.
+
+(* the scaling steps on a den given as (exp, man, neg): op 0 = _div10_den, 1 = _mul10_den, 2 = _apply_carry_den *)
+Definition enc_den (r : res (Z * Z * bool)) : list Z :=
+  match r with
+  | Ok (e, m, n) => [0; e; m; enc_bool n] | Err e => [1; e] | Host x => [2; x] | OutOfFuel => [3]
+  end.
+Definition c07_step (F : dfmt) (op e m : Z) (neg : bool) : list Z :=
+  if op =? 0 then enc_den (mbf_div10_den (d_C F) (e, m, neg))
+  else if op =? 1 then enc_den (Ok (mbf_mul10_den (d_C F) (e, m, neg)))
+  else enc_den (Ok (mbf_apply_carry_den (d_C F) (e, m, neg))).
